@@ -505,10 +505,11 @@ class Polygon(Shape2D):
                 center, r2 = miniball.get_bounding_ball(vertices)
                 break
             except np.linalg.LinAlgError:
+                # Always rotate the original vertices, so that undoing the
+                # latest rotation below recovers the original frame.
                 current_rotation = rowan.random.rand(1)
-                vertices = rowan.rotate(current_rotation, vertices)
-
-        if attempt == max_attempts:
+                vertices = rowan.rotate(current_rotation, self.vertices)
+        else:
             raise RuntimeError("Unable to solve for a bounding circle.")
 
         # The center must be rotated back to undo any rotation.
